@@ -136,7 +136,8 @@ def plan(tier, seed):
                      observe=rnd.random() < 0.3, async_steps=rnd.random() < 0.25, chatty=rnd.random() < 0.06,
                      loglevel=rnd.choice(LOGLEVELS) if rnd.random() < 0.3 else "",
                      logfilter=rnd.choice(LOGFILTERS) if rnd.random() < 0.3 else "",
-                     logclear=rnd.random() < 0.2, tamper=rnd.random() < 0.2, wip=rnd.random() < 0.12, rootlvl0=rnd.random() < 0.15, async_timeout=rnd.random() < 0.5, cont_by_hook=rnd.random() < 0.3)
+                     logclear=rnd.random() < 0.2, tamper=rnd.random() < 0.2, wip=rnd.random() < 0.12, rootlvl0=rnd.random() < 0.15, async_timeout=rnd.random() < 0.5, cont_by_hook=rnd.random() < 0.3,
+                     setuplog=rnd.choice(LOGLEVELS) if rnd.random() < 0.2 else "", capdeco=rnd.random() < 0.25)
 
     def cleanup_only_programs():
         """programs in which NOTHING fails except a cleanup registered at a given layer (every layer, raising or not)"""
@@ -159,6 +160,8 @@ def plan(tier, seed):
                  {"features": [G.feature([G.scenario(["pass", "nest_fail"]), G.scenario(["pass", "pass"])], bg=["pass"])], "family": "logging"}]
         cfgs = [G.cfg(loglevel=lv, logfilter=fl, logclear=(i + j) % 3 == 0, tamper=(i + j) % 2 == 0)
                 for i, lv in enumerate([""] + LOGLEVELS) for j, fl in enumerate([""] + LOGFILTERS)]
+        cfgs += [G.cfg(setuplog=lv, logfilter=fl, capdeco=i % 2 == 0) for i, lv in enumerate(LOGLEVELS) for fl in ("", "verif")]
+        cfgs += [G.cfg(rootlvl0=True, capdeco=True, logclear=lc, capture=(True, True, cl)) for lc in (False, True) for cl in (False, True)]
         cfgs += [G.cfg(capture=cap, logclear=lc, tamper=True, stop=st) for cap in [(True, True, False), (False, True, True), (True, False, False), (False, False, False)]
                  for lc in (False, True) for st in (False, True)]
         return [(with_o2(p), cfgs, [[0, 0]]) for p in progs]
@@ -314,7 +317,7 @@ def shared(chk, part="core"):
     """Run (or load) the shared stage for this tree / tier / seed.  Returns a dict:
        n_runs, tlc: [{module,cfg,distinct,generated,wall,coverage}], verdicts: {clause: [ {key, ...} ]},
        divergences, samples, design_violations"""
-    key = tree_key({"tier": chk.tier, "seed": chk.seed, "part": part, "v": 25})
+    key = tree_key({"tier": chk.tier, "seed": chk.seed, "part": part, "v": 26})
     os.makedirs(CACHE, exist_ok=True)
     # one entry per (part, tier, repository location): runs against a mutated copy must not evict /repo's entry
     prefix = "%s-%s-%s-" % (part, chk.tier, hashlib.sha256(REPO.encode()).hexdigest()[:8])
